@@ -556,6 +556,8 @@ def run(c, facts):
     c.run(lambda c: I.occurs_existential(c, facts, R7))
     c.run(lambda c: r9_check_total(c, facts))
     c.run(lambda c: r10_args_agree(c, facts))
+    import c05
+    c.run(lambda c: c05.r7_var_uniform(c, facts, rule='C01.R12'))
     import c04
     c.run(lambda c: c04.r9_emit_total(c, facts, rule='C01.R11'))
     R8 = c.rule('C01.R8', 'NAMING and GRAPH-COMPLETE (shared with C09.R2, C09.R4): distinct definitions never share an implicit name; every use adds a dependency edge')
